@@ -141,7 +141,16 @@ func exec(op string) vlib.Res {
 	case "pipe query":
 		return pipeQuery(vlib.Atoi(f[2]), f[3] == "t", f[4] == "t", f[5], vlib.Atoi(f[6]), vlib.Atoi(f[7]))
 	case "sub nest":
+		if vlib.Atoi(f[5]) != middleware.VerifC12MaxQueryerRecursion() || uint32(vlib.AtoU64(f[4])) != defaultsFromCode()[1] {
+			return vlib.Res{Impl: "stale-constants", Oracle: "-"}
+		}
 		return subNest(f[2], uint32(vlib.AtoU64(f[3])))
+	case "l3 new":
+		return l3New(f)
+	case "l3 query":
+		return l3Query(f)
+	case "l3 again":
+		return l3Again(f)
 	case "loop new":
 		loopResolver = bareResolver(5)
 		loopCtx = context.Background()
@@ -160,5 +169,12 @@ func main() {
 		explore()
 		return
 	}
-	vlib.Main(&vlib.Driver{Facts: func() map[string]any { return map[string]any{} }, Exec: exec, Gen: func(r *vlib.R, n int, tier string, emit func(string)) {}})
+	vlib.Main(&vlib.Driver{Facts: facts, Exec: exec, Gen: gen})
+}
+
+func short(m *dns.Msg) string {
+	if m == nil {
+		return "noreply"
+	}
+	return fmt.Sprintf("rc=%d ad=%v an=%d", m.Rcode, m.AuthenticatedData, len(m.Answer))
 }
